@@ -323,6 +323,13 @@ theorem table_operand_independent :
     Gen.ExprTables.flipBinaryOperandIndependent = true ∧ Gen.ExprTables.flipUnaryOperandIndependent = true
       ∧ Gen.ExprTables.flipBinaryNonBinary = false := by decide
 
+/-- The extractor's syntactic argument went through on the source text of this tree: in `should_flip_binary` /
+`should_flip_unary` every operand position of every `BinaryExpression` pattern is `_`, the right child is only
+scrutinised for its constructor and operator, and `binary_priority` / the `is_*` methods see the operator alone
+(extract.rs `syntactic_operand_free`; a change of that shape makes the generated flag `false` and breaks this
+theorem). -/
+theorem table_operand_free_syntactic : Gen.ExprTables.flipSyntacticOperandFree = true := by decide
+
 /-! ## The parser equals the reference -/
 
 theorem parseWith_canonical {sf : Op → Op → Bool} {su : UOp → Op → Bool}
@@ -512,5 +519,152 @@ theorem negLit_narrowest_partial (v : Int) (h : v ≠ 2147483648) :
   repeat' split
   all_goals (simp only [negLit]; repeat' split)
   all_goals first | rfl | omega | (congr 1; omega)
+
+/-! ## Printing and parsing back (round trip) -/
+
+/-- Precedence-respecting at every level, also inside parentheses. -/
+def CanonD : Tree → Prop
+  | .leaf _ => True
+  | .paren t => Canon t ∧ CanonD t
+  | .un _ t => CanonD t
+  | .bin _ l r => CanonD l ∧ CanonD r
+
+/-- Print a tree as source text (the token structure `Src`) *without adding parentheses*: the tokens in
+order, `paren` nodes as the only parentheses. `k` is what follows on the right (`op rest`). -/
+def printK : Tree → Option (Op × Src) → Src
+  | .leaf n, none => .atom n
+  | .leaf n, some (o, r) => .atomBin n o r
+  | .paren t, none => .par (printK t none)
+  | .paren t, some (o, r) => .parBin (printK t none) o r
+  | .un u t, k => .un u (printK t k)
+  | .bin o l r, k => printK l (some (o, printK r k))
+
+def printSrc (t : Tree) : Src := printK t none
+
+/-- The tokens that follow. -/
+def contToks : Option (Op × List Tok) → List Tok
+  | none => []
+  | some (o, ts) => .bin o :: ts
+
+theorem printK_toks (t : Tree) : ∀ (k : Option (Op × Src)) (kt : Option (Op × List Tok)),
+    CanonD t →
+    (match k, kt with
+      | none, none => True
+      | some (o, r), some (o', tr) => o = o' ∧ toks? r = some tr
+      | _, _ => False) →
+    toks? (printK t k) = some (yield t ++ contToks kt) := by
+  induction t with
+  | leaf n =>
+    intro k kt _ hk
+    match k, kt, hk with
+    | none, none, _ => rfl
+    | some (o, r), some (o', tr), ⟨ho, hr⟩ => subst ho; simp [printK, toks?, hr, yield, contToks]
+  | paren t ih =>
+    intro k kt hc hk
+    have hin := ih none none hc.2 trivial
+    simp only [contToks, List.append_nil] at hin
+    match k, kt, hk with
+    | none, none, _ => simp [printK, toks?, hin, climbToks_yield _ hc.1, yield, contToks]
+    | some (o, r), some (o', tr), ⟨ho, hr⟩ =>
+      subst ho; simp [printK, toks?, hin, hr, climbToks_yield _ hc.1, yield, contToks]
+  | un u t ih =>
+    intro k kt hc hk
+    simp [printK, toks?, ih k kt hc hk, yield]
+  | bin o l r ihl ihr =>
+    intro k kt hc hk
+    have h1 := ihr k kt hc.2 hk
+    have h2 := ihl (some (o, printK r k)) (some (o, yield r ++ contToks kt)) hc.1 ⟨rfl, h1⟩
+    simp [printK, h2, yield, contToks]
+
+theorem print_toks (t : Tree) (h : CanonD t) : toks? (printSrc t) = some (yield t) := by
+  have := printK_toks t none none h trivial
+  simpa [contToks, printSrc] using this
+
+/-- **Round trip, bare text.** A tree that respects precedence at every level is what the parser makes of its own
+tokens printed without any further parentheses: chains of any length, prefix operators anywhere. -/
+theorem parse_print (t : Tree) (hc : Canon t) (hd : CanonD t) : parseChain (printSrc t) = t := by
+  have h1 := parseChain_eq_climb (printSrc t)
+  simp only [climb, print_toks t hd, climbToks_yield t hc] at h1
+  exact (Option.some.inj h1).symm
+
+/-- Conversely the parentheses of a tree that does not respect precedence are needed: its bare text parses to
+something else. -/
+theorem parse_print_ne (t : Tree) (hc : ¬ Canon t) : parseChain (printSrc t) ≠ t := by
+  intro h; exact hc (h ▸ parseChain_canonical (printSrc t))
+
+/-- Parenthesise an operand unless it is an atom or already parenthesised. -/
+def wrap : Tree → Tree
+  | .leaf n => .leaf n
+  | .paren t => .paren t
+  | t => .paren t
+
+/-- Fully parenthesised form: every operand of every operator is an atom or in parentheses. -/
+def fullParen : Tree → Tree
+  | .leaf n => .leaf n
+  | .paren t => .paren (fullParen t)
+  | .un u t => .un u (wrap (fullParen t))
+  | .bin o l r => .bin o (wrap (fullParen l)) (wrap (fullParen r))
+
+/-- Remove all parentheses. -/
+def strip : Tree → Tree
+  | .leaf n => .leaf n
+  | .paren t => strip t
+  | .un u t => .un u (strip t)
+  | .bin o l r => .bin o (strip l) (strip r)
+
+theorem strip_wrap (t : Tree) : strip (wrap t) = strip t := by cases t <;> rfl
+
+theorem strip_fullParen (t : Tree) : strip (fullParen t) = strip t := by
+  induction t with
+  | leaf n => rfl
+  | paren t ih => simpa [fullParen, strip] using ih
+  | un u t ih => simp [fullParen, strip, strip_wrap, ih]
+  | bin o l r ihl ihr => simp [fullParen, strip, strip_wrap, ihl, ihr]
+
+theorem wrap_atom (t : Tree) : Canon (wrap t) ∧ lrank (wrap t) = top ∧ cap (wrap t) = top + 1 := by
+  cases t <;> simp [wrap, Canon, lrank, cap]
+
+theorem canonD_wrap (t : Tree) (hc : Canon t) (hd : CanonD t) : CanonD (wrap t) := by
+  cases t with
+  | leaf n => trivial
+  | paren s => exact hd
+  | un u s => exact ⟨hc, hd⟩
+  | bin o l r => exact ⟨hc, hd⟩
+
+theorem fullParen_canon (t : Tree) : Canon (fullParen t) ∧ CanonD (fullParen t) := by
+  induction t with
+  | leaf n => exact ⟨trivial, trivial⟩
+  | paren t ih => exact ⟨trivial, ih⟩
+  | un u t ih =>
+    obtain ⟨h1, h2, -⟩ := wrap_atom (fullParen t)
+    refine ⟨⟨h1, ?_⟩, canonD_wrap _ ih.1 ih.2⟩
+    rw [h2]; exact Nat.le_of_lt (rankU_lt_top u)
+  | bin o l r ihl ihr =>
+    obtain ⟨l1, -, l3⟩ := wrap_atom (fullParen l)
+    obtain ⟨r1, r2, -⟩ := wrap_atom (fullParen r)
+    refine ⟨⟨l1, r1, ?_, ?_⟩, canonD_wrap _ ihl.1 ihl.2, canonD_wrap _ ihr.1 ihr.2⟩
+    · rw [l3]; have := rankB_lt_top o; omega
+    · rw [r2]; exact rankB_lt_top o
+
+/-- **Round trip, fully parenthesised text.** For *every* tree — any grouping, precedence-respecting or not, any
+length, prefix operators anywhere — the fully parenthesised text parses back to exactly that grouping. -/
+theorem parse_print_fullParen (t : Tree) : parseChain (printSrc (fullParen t)) = fullParen t :=
+  parse_print _ (fullParen_canon t).1 (fullParen_canon t).2
+
+/-- Fully and minimally parenthesised renderings of a precedence-respecting tree parse to the same grouping. -/
+theorem full_vs_bare (t : Tree) (hc : Canon t) (hd : CanonD t) :
+    strip (parseChain (printSrc (fullParen t))) = strip (parseChain (printSrc t)) := by
+  rw [parse_print_fullParen, parse_print t hc hd, strip_fullParen]
+
+/-- Non-vacuity: `-a + NOT b * c - d` needs no parentheses; `(a + b) * c` without them is another tree, and with
+full parentheses every grouping comes back, e.g. `a - (b - c)` and `-(a + b)`. -/
+example : parseChain (printSrc (.bin .minus (.bin .plus (.un .neg (.leaf 0)) (.leaf 1)) (.leaf 2)))
+    = .bin .minus (.bin .plus (.un .neg (.leaf 0)) (.leaf 1)) (.leaf 2) := by decide
+example : parseChain (printSrc (.bin .mul (.bin .plus (.leaf 0) (.leaf 1)) (.leaf 2)))
+    = .bin .plus (.leaf 0) (.bin .mul (.leaf 1) (.leaf 2)) := by decide
+example : parseChain (printSrc (fullParen (.bin .minus (.leaf 0) (.bin .minus (.leaf 1) (.leaf 2)))))
+    = .bin .minus (.leaf 0) (.paren (.bin .minus (.leaf 1) (.leaf 2))) := by decide
+example : parseChain (printSrc (fullParen (.un .neg (.bin .plus (.leaf 0) (.leaf 1)))))
+    = .un .neg (.paren (.bin .plus (.leaf 0) (.leaf 1))) := by decide
 
 end RbThm.C10
